@@ -65,6 +65,9 @@ def add_twins(source):
 
 
 def _run_one(path, fname, tmo, ppt=None):
+    # CrossHair's default per-path budget is sqrt(condition budget); a path cut
+    # short is UNKNOWN for good, and 16 loaded cores make that common
+    ppt = ppt or max(30.0, tmo / 3.0)
     cmd = [PY, '-m', 'vlib.xh_worker', path, fname, str(tmo)] + ([str(ppt)] if ppt else [])
     env = dict(os.environ, PYTHONPATH=ROOT + ':' + os.path.dirname(path), PYTHONWARNINGS='ignore',
                PYTHONHASHSEED='0')
